@@ -180,8 +180,8 @@ func comparePreRelease(pr1, pr2 []string) int {
 // comparePreReleaseIdentifier compares individual pre-release identifiers
 func comparePreReleaseIdentifier(id1, id2 string) int {
 	// Try to parse as integers first
-	num1, err1 := strconv.Atoi(id1)
-	num2, err2 := strconv.Atoi(id2)
+	num1, err1 := parseNumericIdentifier(id1)
+	num2, err2 := parseNumericIdentifier(id2)
 
 	if err1 == nil && err2 == nil {
 		// Both are numbers, compare numerically
@@ -204,6 +204,15 @@ func comparePreReleaseIdentifier(id1, id2 string) int {
 		return 1
 	}
 	return 0
+}
+
+// parseNumericIdentifier parses an identifier that consists of digits only; "-5" is an
+// alphanumeric identifier, not the integer -5.
+func parseNumericIdentifier(id string) (int, error) {
+	if id == "" || id[0] < '0' || id[0] > '9' {
+		return 0, fmt.Errorf("not a numeric identifier: %s", id)
+	}
+	return strconv.Atoi(id)
 }
 
 func compareInt(a, b int) int {
